@@ -589,8 +589,10 @@ def check_output(w, plan, opts, mode, out, so, expected_records, exact, pred, ad
             variants = [v + [recs] for v in variants]
         else:
             variants = [v + [recs[:k]] for v in variants for k in range(len(recs) + 1)]
-            if len(variants) > 64:
-                variants = variants[:64]
+            if len(variants) > 6000:
+                # too many admissible prefixes to enumerate soundly: this run is not judged
+                w.stats["unjudged_runs"] += 1
+                return
     exps = []
     for v in variants:
         models, kept = pipeline(v, opts, pred, mode)
@@ -712,7 +714,7 @@ def check_output(w, plan, opts, mode, out, so, expected_records, exact, pred, ad
         ok = False
         msg = None
         for exp in exps:
-            m = line_mismatch(blocks, exp, mode == "line-verbose", opts)
+            m = line_mismatch(blocks, exp, mode == "line-verbose", opts, mode != "line")
             if m is None:
                 ok = True
                 break
@@ -813,17 +815,26 @@ class _Wild(list):
     __hash__ = None
 
 
-def line_mismatch(blocks, exp, verbose, opts):
+def line_mismatch(blocks, exp, verbose, opts, via_writer=False):
     if len(blocks) != len(exp):
         return "%d record blocks, expected %d" % (len(blocks), len(exp))
     for i, (b, e) in enumerate(zip(blocks, exp), 1):
         if not b.startswith("%d ]--" % i):
             return "block %d is numbered %r" % (i, b[:12])
         kv = [tuple(x.strip() for x in ln.split(" = ", 1)) for ln in b.splitlines()[1:] if " = " in ln]
+        fields = e["fields"]
+        if not via_writer and opts["F"]:
+            # with plain -L (no -w, and a writer URI without a query of its own) the line writer is handed
+            # fields=/exclude= as well and applies them when rendering, which hides ts / ts_description of
+            # timestamp-expanded records (as the CSV writer does); -Lv and the JSON modes do not get them
+            byname = {f: (f, t, v) for f, t, v in fields}
+            fields = [byname[f] for f in opts["F"].split(",") if f in byname]
+        if not via_writer and opts["X"]:
+            fields = [x for x in fields if x[0] not in opts["X"].split(",")]
         if verbose:
-            want = [("%s (%s)" % (f, t), str(v)) for f, t, v in e["fields"]]
+            want = [("%s (%s)" % (f, t), str(v)) for f, t, v in fields]
         else:
-            want = [(f, str(v)) for f, t, v in e["fields"]]
+            want = [(f, str(v)) for f, t, v in fields]
         if kv[: len(want)] != want:
             return "block %d fields %s, expected %s" % (i, short(kv, 160), short(want, 160))
     return None
